@@ -392,7 +392,13 @@ class Ctx(object):
         self.sigs = set()
         self.C = None
         self.snaps = None
-        self.eps = R.eps(self.info.dtype)
+        # tolerance unit for the NON-dyadic scalars: they are Python floats / complex numbers, i.e.
+        # double precision; odl forms 1 / a and a * x with them in double precision, so on the
+        # extended-precision dtypes (longdouble, clongdouble) results involving such a scalar are
+        # accurate to double precision only - that is the precision of the operand, not a defect.
+        # Dyadic scalars and element-element arithmetic stay exact in every dtype.
+        self.eps = max(R.eps(self.info.dtype), float(np.finfo(np.float64).eps)) \
+            if np.dtype(self.info.dtype).kind in 'fc' else R.eps(self.info.dtype)
         self.head = 'space=%s layouts=%s' % (self.info.descr, ','.join(
             r.layout for r in self.regs[:3]))
 
